@@ -37,6 +37,8 @@ func init() {
 			gen.CheckReserved(c.Run, c.Prog, na, freeNameList(c, "G-RESERVED"), false)
 		}
 		gen.CheckVarNameOwners(c.Run, c.Prog)
+		// AddVar tests names against the imports through searchImport: it must see the current qualifiers
+		gen.CheckSearchLive(c.Run, c.Prog)
 		c.Run.Floor("G-RESERVED/covers", 40)
 		c.RunSkeletons(SkelOpts{Rules: []string{"G-SCOPE", "K-RECORD/literal"}, Env: smallEnv})
 	})
